@@ -495,6 +495,7 @@ for _g in ((), (193,), (181,), (197,), (1, 197)):
 
 class MakeHeaderCallSite(Contract):
     """call-site view of make_header (MakeHeader contracts): an 8 KiB bytearray"""
+    only_in = ('make_header_seismic_file',)
     modular_use = True
     exact_result = True
     variant = 'call-site view'
